@@ -942,14 +942,14 @@ def run(ctx):
     def builds():
         ctx.mockery()
         ctx.build_driver("rematch")
-    with cf.ThreadPoolExecutor(max_workers=4) as ex:
+    with cf.ThreadPoolExecutor(max_workers=5) as ex:
         fb = ex.submit(builds)
         fs = ex.submit(tlc_job, ctx, "sel", "SelectionMC", f"Selection_{tier}.cfg", 4 if not thorough else 6, 2400, thorough)
         fd = ex.submit(tlc_job, ctx, "disc", "Recursive", f"Recursive_discovery_{tier}.cfg", 3 if not thorough else 5, 2400, thorough)
         fi = ex.submit(tlc_job, ctx, "inh", "Recursive", f"Recursive_inherit_{tier}.cfg", 3 if not thorough else 5, 2400, thorough)
+        fp = ex.submit(tlc_job, ctx, "deep", "Recursive", f"Recursive_deep_{tier}.cfg", 3 if not thorough else 4, 2400, thorough)
         fb.result()
-        r_sel, r_disc, r_inh = fs.result(), fd.result(), fi.result()
-        r_deep = tlc_job(ctx, "deep", "Recursive", f"Recursive_deep_{tier}.cfg", 4, 2400, thorough)
+        r_sel, r_disc, r_inh, r_deep = fs.result(), fd.result(), fi.result(), fp.result()
     for r in (r_sel, r_disc, r_inh, r_deep):
         ctx.cov["states"] += r.distinct
         ctx.cov["transitions"] += r.generated
@@ -963,8 +963,8 @@ def run(ctx):
     rec_cases = rec_model(ctx, [("discovery", r_disc), ("inherit", r_inh), ("deep", r_deep)], thorough)
     tick(ctx, "parse_exports", t0)
     # ---- 2. replay through the binary
-    sel_chosen = sel_choose(ctx, sel_cases, len(sel_cases) if thorough else 2000)
-    rec_chosen = rec_choose(ctx, rec_cases, 9000 if thorough else 700)
+    sel_chosen = sel_choose(ctx, sel_cases, len(sel_cases) if thorough else 1600)
+    rec_chosen = rec_choose(ctx, rec_cases, 9000 if thorough else 600)
     if ctx.replay:
         sel_chosen, rec_chosen = replay_filter(ctx, sel_cases, rec_cases)
     t0 = time.time()
